@@ -3,6 +3,7 @@ package monitor
 import (
 	"bytes"
 	"fmt"
+	"net"
 
 	"github.com/free5gc/nas/nasConvert"
 
@@ -212,12 +213,54 @@ func c16ErrCause(c *core.Ctx, k *core.Case) {
 	}
 }
 
+// oracle "pco-helpers": I=[seed] — the Add* helpers build units with the TS 24.008
+// Table 10.5.154 container identifiers and raw address / MTU contents.
+func c16Helpers(c *core.Ctx, k *core.Case) {
+	r := prng.New(uint64(k.I[0]))
+	p := nasConvert.NewProtocolConfigurationOptions()
+	v4a, v4b := net.IP(r.Bytes(4)), net.IP(r.Bytes(4))
+	v6 := net.IP(r.Bytes(16))
+	mtu := uint16(r.Uint32())
+	var want []pcoUnit
+	p.AddDNSServerIPv4AddressRequest()
+	want = append(want, pcoUnit{0x000d, nil})
+	p.AddDNSServerIPv6AddressRequest()
+	want = append(want, pcoUnit{0x0003, nil})
+	p.AddIPAddressAllocationViaNASSignallingUL()
+	want = append(want, pcoUnit{0x000a, nil})
+	e1 := p.AddDNSServerIPv4Address(v4a)
+	want = append(want, pcoUnit{0x000d, v4a})
+	e2 := p.AddPCSCFIPv4Address(v4b)
+	want = append(want, pcoUnit{0x000c, v4b})
+	e3 := p.AddDNSServerIPv6Address(v6)
+	want = append(want, pcoUnit{0x0003, v6})
+	e4 := p.AddIPv4LinkMTU(mtu)
+	want = append(want, pcoUnit{0x0010, []byte{byte(mtu >> 8), byte(mtu)}})
+	c.Eval(1)
+	if e1 != nil || e2 != nil || e3 != nil || e4 != nil {
+		c.Fail(k, "pco-helper-error", fmt.Sprint(e1, e2, e3, e4))
+		return
+	}
+	if got, w := p.Marshal(), pcoRef(want); !bytes.Equal(got, w) {
+		c.Fail(k, "pco-helper-layout", fmt.Sprintf("list built with the Add* helpers marshals to %s, TS 24.008 identifiers and raw contents give %s", hx(got), hx(w)))
+	}
+	for i, u := range p.ProtocolOrContainerList {
+		if int(u.LengthOfContents) != len(u.Contents) {
+			c.Fail(k, "pco-helper-length", fmt.Sprintf("unit %d: LengthOfContents %d, %d content octets", i, u.LengthOfContents, len(u.Contents)))
+		}
+	}
+	// an IPv6 address where IPv4 is required (and the converse) must be refused
+	if p.AddDNSServerIPv4Address(v6) == nil || p.AddPCSCFIPv4Address(v6) == nil {
+		c.Fail(k, "pco-helper-accepts-wrong-family", "an IPv6 address was accepted by an IPv4 helper")
+	}
+}
+
 func init() {
 	p := &core.Property{
 		ID:   "C16",
 		Rule: "PCO: lists of 0..20 units with any 16-bit identifier and contents of 0..255 octets: Marshal = 0x80 + (id, length, contents)*, UnMarshal(Marshal(l)) = l in order; parsing every byte string of length <= 2 (thorough 3) and mutated/truncated serialisations: no panic, and every unit of a nil-error result is exactly the (id, length, contents) found at its offset in the input, no complete unit dropped. PSI: all 65 536 two-octet bitmaps both ways, bit i = bit i%8 of octet i/8. Non-trivial = list with at least one unit / a mutated string; distinct by seed / bytes.",
 		Assumptions: []string{"LengthOfContents equals len(Contents) in well-formed lists", "an incomplete trailing header dropped without error is 'a value', not a violation"},
-		Oracles:     map[string]func(*core.Ctx, *core.Case){"pco-roundtrip": c16Roundtrip, "pco-parse": c16Parse, "pco-sweep": c16Sweep, "psi": c16Psi, "errcause": c16ErrCause},
+		Oracles:     map[string]func(*core.Ctx, *core.Case){"pco-roundtrip": c16Roundtrip, "pco-parse": c16Parse, "pco-sweep": c16Sweep, "psi": c16Psi, "errcause": c16ErrCause, "pco-helpers": c16Helpers},
 		Exhaustive: func(tier string) (bool, string) {
 			return true, "all 65 536 PDU session bitmaps in both directions; all PCO byte strings up to 2 (thorough 3) octets; container lists sampled"
 		},
@@ -280,6 +323,11 @@ func init() {
 					kp := &core.Case{Oracle: "pco-parse", Target: "nasConvert.ProtocolConfigurationOptions.UnMarshal", B: [][]byte{b}}
 					c.Do(kp)
 					c.NonTrivial(kp.Hash())
+					if i%8 == 0 {
+						kh := &core.Case{Oracle: "pco-helpers", Target: "nasConvert.ProtocolConfigurationOptions.Add*", I: []int64{int64(c.R.Uint64() >> 1)}}
+						c.Do(kh)
+						c.NonTrivial(kh.Hash())
+					}
 					ke := &core.Case{Oracle: "errcause", Target: "nasConvert.PDUSessionReactivationResultErrorCauseToBuf", I: []int64{int64(c.R.Uint64() >> 1), int64(c.R.Intn(17))}}
 					c.Do(ke)
 				}
